@@ -449,8 +449,14 @@ def stream_cases(quick):
     if quick:
         for cfg in cfg0:
             for a, b in pairs2:
-                for mode in ('burst', 'stepped', 'early'):
+                if len(a) <= 1 or len(b) <= 1:
+                    cases.append((cfg, {'mode': 'burst', 'c': a, 's': b}))
+            for a, b in pairs1:
+                for mode in ('stepped', 'early'):
                     cases.append((cfg, {'mode': mode, 'c': a, 's': b}))
+            for a in two:
+                if len(a) == 2:
+                    cases.append((cfg, {'mode': 'stepped', 'c': a, 's': a}))
         for cfg in cfg1:
             for a, b in pairs1:
                 cases.append((cfg, {'mode': 'burst', 'c': a, 's': b}))
@@ -499,12 +505,25 @@ def cfg_class(cfg):
     return '+'.join(sorted(cfg)) or 'default'
 
 
+_CONFIRMED = set()
+
+
+def _needs_confirmation(viol):
+    """A verdict obtained on reused stacks is re-derived on fresh stacks the first time each distinct set of
+    signatures shows up in this worker."""
+    key = core.digest(sorted(core.canon_json(x[:2]) for x in viol))
+    if key in _CONFIRMED:
+        return False
+    _CONFIRMED.add(key)
+    return True
+
+
 def w_stream(items):
     st = core.Stats('stream')
     for cfg, plan in items:
         plan = {'mode': plan['mode'], 'c': list(plan['c']), 's': list(plan['s'])}
         viol, obs = run_stream_case(cfg, plan, reuse=True)
-        if viol:
+        if viol and _needs_confirmation(viol):
             # confirm on fresh stacks; the replay file must reproduce from a fresh process
             viol2, obs2 = run_stream_case(cfg, plan)
             if sorted(core.canon_json(x[:2]) for x in viol2) != sorted(core.canon_json(x[:2]) for x in viol):
@@ -1283,7 +1302,7 @@ def w_slc(cases):
     st = core.Stats('slc')
     for case in cases:
         viol, obs = run_slc_case(case, reuse=True)
-        if viol:
+        if viol and _needs_confirmation(viol):
             viol2, _ = run_slc_case(case)
             if sorted(core.canon_json(x[:2]) for x in viol2) != sorted(core.canon_json(x[:2]) for x in viol):
                 raise core.HarnessError(f'slc case {case}: verdict differs between reused and fresh stacks: {viol} / {viol2}')
